@@ -332,7 +332,7 @@ theorem Inv.replace {w : W} (inv : Inv w) (h' : Heap) (hh : HeapOK h')
 /-- what the arguments of an operation must satisfy: filters are live objects of the heap,
     `is_global` arguments are the constants `True`/`False` -/
 def ROpOK (h : Heap) : ROp → Prop
-  | .add _ _ _ f _ g => Known h f.toF ∧ g.toF.isConst = true
+  | .add _ _ _ f _ g _ => Known h f.toF ∧ g.toF.isConst = true
   | .addB _ _ func f e g => Known h func.filter ∧ Known h f.toF ∧ Known h e.toF ∧ Known h func.eager ∧
       g.toF.isConst = true ∧ func.isGlobal.isConst = true
   | .removeH _ _ => True
@@ -369,7 +369,7 @@ theorem Inv.same {w : W} (inv : Inv w) (r : Nat) (e : Reg) (he : w.regs[r]? = so
 theorem Inv.applyROp {w : W} (inv : Inv w) (op : ROp) (hop : ROpOK w.heap op) :
     Inv (applyROp w op).1 := by
   cases op with
-  | add r keys hid f e g =>
+  | add r keys hid f e g m =>
     simp only [Ptk.C04.applyROp]
     cases he : w.regs[r]? with
     | none => exact inv
@@ -381,15 +381,16 @@ theorem Inv.applyROp {w : W} (inv : Inv w) (op : ROp) (hop : ROpOK w.heap op) :
         · exact inv
         · simp only [KB.add]
           split
-          · exact inv.same r _ he
+          · exact (inv.same r _ he).setNextB _
           · have := inv.kbChange w.heap inv.heap (fun _ h => h) r k he
-              (k.bs ++ [{ keys := keys, hid := hid, filter := f.toF, eager := e.toF, isGlobal := g.toF }])
+              (k.bs ++ [{ keys := keys, hid := hid, filter := f.toF, eager := e.toF, isGlobal := g.toF,
+                          rim := m.toF, bid := w.nextB }])
               (by
                 intro b hb
                 rcases List.mem_append.mp hb with h1 | h1
                 · exact (inv.ent r _ he).2 b h1
                 · simp at h1; subst h1; exact ⟨hop.1, hop.2⟩)
-            exact this
+            exact this.setNextB _
       | _ => exact inv
   | addB r keys func f e g =>
     simp only [Ptk.C04.applyROp]
@@ -404,7 +405,7 @@ theorem Inv.applyROp {w : W} (inv : Inv w) (op : ROp) (hop : ROpOK w.heap op) :
         · obtain ⟨k1, k2, k3, k4, k5, k6⟩ := hop
           simp only [KB.addBinding]
           split
-          · exact inv.same r _ he
+          · exact (inv.same r _ he).setNextB _
           · obtain ⟨⟨o1, n1, m1⟩, _⟩ := fAnd_spec inv.heap func.filter f.toF k1 k2
             obtain ⟨⟨o2, n2, m2⟩, _⟩ := fOr_spec o1 e.toF func.eager (m1 _ k3) (m1 _ k4)
             obtain ⟨g1, g2⟩ := fOr_const (fOr (fAnd w.heap func.filter f.toF).1 e.toF func.eager).1
@@ -418,7 +419,7 @@ theorem Inv.applyROp {w : W} (inv : Inv w) (op : ROp) (hop : ROpOK w.heap op) :
               (k.bs ++ [{ keys := keys, hid := func.hid, filter := (fAnd w.heap func.filter f.toF).2,
                           eager := (fOr (fAnd w.heap func.filter f.toF).1 e.toF func.eager).2,
                           isGlobal := (fOr (fOr (fAnd w.heap func.filter f.toF).1 e.toF
-                            func.eager).1 g.toF func.isGlobal).2 }])
+                            func.eager).1 g.toF func.isGlobal).2, rim := func.rim, bid := w.nextB }])
               (by
                 intro b hb
                 rcases List.mem_append.mp hb with h1 | h1
@@ -427,7 +428,7 @@ theorem Inv.applyROp {w : W} (inv : Inv w) (op : ROp) (hop : ROpOK w.heap op) :
                   refine ⟨?_, g2⟩
                   show Known _ (fAnd w.heap func.filter f.toF).2
                   rw [g1]; exact m2 _ n1)
-            exact this
+            exact this.setNextB _
       | _ => exact inv
   | removeH r hid =>
     simp only [Ptk.C04.applyROp]
@@ -635,7 +636,7 @@ theorem wrappers_always_reflect {w : W} (h : Reach w) (i : Nat) (hi : i < w.regs
 /-- a registry, a conditional wrapper around it, a merge of both; a binding added, a lookup through
     the merge (fills the caches of both wrappers), the binding removed again -/
 def exOps : List ROp :=
-  [.add 0 [2] 7 (.b true) (.b false) (.b false), .removeH 0 7]
+  [.add 0 [2] 7 (.b true) (.b false) (.b false) (.b true), .removeH 0 7]
 
 def exW1 : W := { regs := [.kb {}, .cond 0 F.always {} (.tup []), .merged [1, 0] {} (.tup [])] }
 def exW2 : W := (applyROp exW1 (exOps[0]!)).1
